@@ -36,6 +36,8 @@ mod worker;
 
 pub use cache_prepopulate::prepopulate as prepopulate_cache;
 pub use page_walker::UpdatedPage;
+#[cfg(nomt_verif)]
+pub use page_walker::verif as page_walker_verif;
 
 #[cfg(doc)]
 use nomt_core::page_id::MAX_CHILD_INDEX;
